@@ -11,6 +11,10 @@ def isBegin : Ev → Bool
   | .begin _ => true
   | _ => false
 
+def isBeginBad : Ev → Bool
+  | .beginBad => true
+  | _ => false
+
 def isBeginOk : Ev → Bool
   | .begin true => true
   | _ => false
@@ -40,9 +44,12 @@ def bodyFailed : BodyOut → Bool
   | .panic => true
   | _ => false
 
-/-- "begins one transaction": at most one Begin reaches the driver, and it is the first call. -/
+/-- "begins one transaction": after the attempts database/sql itself retries (answered driver.ErrBadConn) at
+most one Begin reaches the driver; nothing reaches the driver before it and no Begin attempt after it. -/
 def beginsOnce (r : Result) : Bool :=
-  count isBegin r.log ≤ 1 && (r.log.drop 1).all (fun e => !isBegin e)
+  count isBegin r.log ≤ 1 &&
+  ((r.log.dropWhile isBeginBad).head?.map isBegin).getD true &&
+  ((r.log.dropWhile isBeginBad).drop 1).all (fun e => !isBegin e && !isBeginBad e)
 
 /-- "ends it exactly once": an opened transaction sees exactly one Commit/Rollback, as the last call;
 without an opened transaction the driver sees no statement, Commit or Rollback. -/
@@ -66,7 +73,7 @@ def rollbackIffBodyFailed (r : Result) : Bool :=
 def panicReported (r : Result) : Bool :=
   if r.body == .panic then
     match r.ret with
-    | some e => e.mentions .panic
+    | some e => e.mentions .panic || r.escaped     -- (or the Rollback it caused panicked in turn)
     | none => false
   else true
 
@@ -79,23 +86,53 @@ def reports (r : Result) (s : Src) : Bool :=
   | some e => e.mentions s
   | none => false
 
-/-- "commit or rollback failures are reported to the caller" -/
-def endFailuresReported (r : Result) : Bool :=
-  (!r.log.contains (.commit false) || reports r .commit) &&
-  (!r.log.contains (.rollback false) || reports r .rollback)
+/-- the identity of `s` is reachable in the returned error's chain (`errors.Is`) -/
+def retIs (r : Result) (s : Src) : Bool :=
+  match r.ret with
+  | some e => e.is.contains s
+  | none => false
 
-/-- the body's own error is not lost: everything it carried is still told to the caller -/
+/-- "commit or rollback failures are reported to the caller": the driver's error is reachable in the returned
+chain (`errors.Is`), not only mentioned in its text -/
+def endFailuresReported (r : Result) : Bool :=
+  (!r.log.contains (.commit false) || retIs r .commit) &&
+  (!r.log.contains (.rollback false) || retIs r .rollback)
+
+/-- a transaction that could not begin is reported with the driver's Begin error (or driver.ErrBadConn when
+database/sql gave up retrying) reachable in the returned chain -/
+def beginFailureReported (r : Result) : Bool :=
+  (!r.log.contains (.begin false) || retIs r .begin) &&
+  (!(r.log.any isBeginBad && !r.log.any isBegin) || retIs r .badConn)
+
+/-- the body's own error is not lost: everything it carried is still told to the caller (unless the Rollback
+it caused panicked: then that panic is what the caller gets) -/
 def bodyErrorReported (r : Result) : Bool :=
   match r.body with
-  | .err e => e.is.all (reports r)
+  | .err e => r.escaped || e.is.all (reports r)
   | _ => true
+
+/-- the call returns in an orderly way: it leaves by a panic only with the panic of the driver's own
+Commit / Rollback (the last driver call), never with the body's panic and never after a successful end. -/
+def orderlyReturn (r : Result) : Bool :=
+  !r.escaped ||
+  (r.ret == some (Err.of .commit) && r.log.getLast? == some (.commit false)) ||
+  (r.ret == some (Err.of .rollback) && r.log.getLast? == some (.rollback false))
+
+/-- the breaker is told "success" exactly for nil and for acceptable errors (ErrNoRows, ErrTxDone,
+context.Canceled, acceptableError, WithAcceptable) — whenever `acceptable` was consulted at all; a failed
+Begin / Commit / Rollback or a panic is never booked as a success. `ua`: a WithAcceptable function is installed. -/
+def breakerTold (ua : Bool) (r : Result) : Bool :=
+  match r.mark with
+  | none => true
+  | some m => m == acceptable ua r.ret
 
 def clauses : List (String × (Result → Bool)) :=
   [("begins-once", beginsOnce), ("ends-exactly-once", endsExactlyOnce),
    ("body-runs-iff-begun", bodyRunsIffBegun), ("commit-iff-body-ok", commitIffBodyOk),
    ("rollback-iff-body-failed", rollbackIffBodyFailed), ("panic-reported", panicReported),
    ("nil-iff-commit-ok", nilIffCommitOk), ("end-failures-reported", endFailuresReported),
-   ("body-error-reported", bodyErrorReported)]
+   ("body-error-reported", bodyErrorReported), ("orderly-return", orderlyReturn),
+   ("begin-failure-reported", beginFailureReported)]
 
 /-- names of the clauses an observation violates -/
 def violated (r : Result) : List String :=
@@ -104,6 +141,6 @@ def violated (r : Result) : List String :=
 def holds (r : Result) : Bool :=
   beginsOnce r && endsExactlyOnce r && bodyRunsIffBegun r && commitIffBodyOk r &&
   rollbackIffBodyFailed r && panicReported r && nilIffCommitOk r && endFailuresReported r &&
-  bodyErrorReported r
+  bodyErrorReported r && orderlyReturn r && beginFailureReported r
 
 end GoZero.C14.Spec
